@@ -57,10 +57,35 @@ def ev(e, arg, env):
     raise ValueError(op)
 
 
+def _mk_dist_real(off):
+    """the same tri-distribution with REAL randomness: genjax.categorical at dyadic logits (script ignored)."""
+    from genjax import categorical
+
+    def sampler(script, par, **kw):
+        return categorical.sample(ROWS[(par + off) % K], **kw)
+
+    def logpdf(x, script, par):
+        return categorical.logpdf(x, ROWS[(par + off) % K])
+
+    return distribution(sampler, logpdf, name=f"tri{off}real")
+
+
 class Builder:
-    def __init__(self, gf_table):
+    def __init__(self, gf_table, real=False):
         self.GF = gf_table
         self._cache = {}
+        self.real = real
+
+    def leaf_paths(self, name, path=()):
+        G = self.GF[name]
+        k = G["kind"]
+        if k == "dist":
+            return [path]
+        if k == "fn":
+            return [q for st in G["sites"] for q in self.leaf_paths(st["callee"], path + (st["addr"],))]
+        if k in ("vmap", "scan"):
+            return [q for i in range(G["n"]) for q in self.leaf_paths(G["callee"], path + (str(i + 1),))]
+        return self.leaf_paths(G["t"], path)
 
     def kind(self, name):
         return self.GF[name]["kind"]
@@ -72,7 +97,7 @@ class Builder:
         G = self.GF[name]
         k = G["kind"]
         if k == "dist":
-            out = _mk_dist(G["off"], G["soff"])
+            out = _mk_dist_real(G["off"]) if self.real else _mk_dist(G["off"], G["soff"])
         elif k == "fn":
             out = self._mk_fn(name, G, role)
         elif k == "vmap":
